@@ -324,8 +324,11 @@ class Exec(ExprMixin, StmtMixin, LoopMixin, ModelMixin):
         i = self.bound("i", T.I)
         q = self.bound("q", T.Key)
         ki = self.as_key(m.key(i))
-        self.define(z3.ForAll([i], z3.Implies(z3.And(i >= 0, i < m.n), z3.And(T.has(o, ki), T.get(o, ki) == self.as_val(m.val(i)))),
-                              patterns=[T.has(o, ki)]))
+        try:
+            self.define(z3.ForAll([i], z3.Implies(z3.And(i >= 0, i < m.n), z3.And(T.has(o, ki), T.get(o, ki) == self.as_val(m.val(i)))),
+                                  patterns=[T.has(o, ki)]))
+        except z3.Z3Exception:      # the key term is not a valid trigger (contains a conditional): let the solver choose
+            self.define(z3.ForAll([i], z3.Implies(z3.And(i >= 0, i < m.n), z3.And(T.has(o, ki), T.get(o, ki) == self.as_val(m.val(i))))))
         self.define(z3.ForAll([q], z3.Implies(z3.And(T.has(o, q), T.top(q)), z3.Exists([i], z3.And(i >= 0, i < m.n, q == ki))),
                               patterns=[T.has(o, q)]))
         # shape recognised as a Template parameter dictionary: every key is f":{name}:" and every value an escaped string
